@@ -1,6 +1,7 @@
 import Blots.Drv.Core
 import Blots.Drv.Units
 import Blots.Drv.Print
+import Blots.Drv.Eval
 import Blots.Drv.NumText
 import Blots.Drv.Json
 /-
@@ -15,7 +16,8 @@ def handlers : List (List Sx → Option String) := [
   Drv.handleUnits,
   Drv.handleNumText,
   Drv.handleCore,
-  Drv.handlePrint
+  Drv.handlePrint,
+  Drv.handleEval
 ]
 
 def handle (req : List Sx) : String :=
